@@ -711,3 +711,39 @@ Proof.
     replace (8 + sz * blen es <=? mx) with false by (symmetry; apply N.leb_gt; lia).
     cbn. split; [lia | reflexivity].
 Qed.
+
+(* ---------------------------------------------------------------- what a string read delivers was there *)
+Lemma slice_length b off n : blen (fst (slice b off n)) = n.
+Proof.
+  unfold slice. cbn [fst]. unfold blen. rewrite app_length, repeat_length.
+  pose proof (firstn_le_length (N.to_nat n) (skipn (N.to_nat off) b)) as H.
+  replace (length (firstn (N.to_nat n) (skipn (N.to_nat off) b)) +
+           (N.to_nat n - length (firstn (N.to_nat n) (skipn (N.to_nat off) b))))%nat with (N.to_nat n) by lia.
+  apply N2Nat.id.
+Qed.
+
+(* whatever the 8-byte length word says (also 2^64-1, or any value that makes read_pos_ + length wrap
+   around): a string is delivered only when the 8 + length bytes lie between the position and the end *)
+Lemma read_string_delivers s v s' : rinv s -> read_string s = (RBytes v, s') ->
+  8 + blen v <= ms_len s - ms_pos s /\ ms_pos s' = ms_pos s + 8 + blen v /\ good s' = true.
+Proof.
+  intros H. unfold read_string.
+  assert (H0 : rinv (begin_reading s)) by exact H.
+  rewrite (has_remaining_inv _ 8 H0).
+  destruct (8 <=? _) eqn:E; [|discriminate].
+  apply N.leb_le in E. rewrite (take_eq (begin_reading s) 8).
+  destruct (take_inv _ 8 H0 E) as (H1 & Hp & Hb & Hl).
+  set (s1 := snd (take (begin_reading s) 8)) in *.
+  set (n := of_le (fst (take (begin_reading s) 8))).
+  rewrite (has_remaining_inv _ _ H1).
+  destruct (n <=? ms_len s1 - ms_pos s1) eqn:E2; [|discriminate].
+  apply N.leb_le in E2. rewrite (take_eq s1 n). intros Hr.
+  assert (Hv : fst (take s1 n) = v) by congruence.
+  assert (Hs : done_reading (snd (take s1 n)) = s') by congruence. clear Hr. subst v s'.
+  destruct (take_inv _ n H1 E2) as (_ & Hp2 & _ & _).
+  change (ms_len (begin_reading s)) with (ms_len s) in *. change (ms_pos (begin_reading s)) with (ms_pos s) in *.
+  assert (Hlen : blen (fst (take s1 n)) = n) by (unfold take; destruct (slice (ms_buf s1) (ms_pos s1) n) as [vv oo] eqn:Es;
+     cbn [fst]; change vv with (fst (vv, oo)); rewrite <- Es; apply slice_length).
+  rewrite Hlen. cbn [done_reading set_state ms_pos good ms_eof ms_fail ms_bad orb negb].
+  repeat split; lia.
+Qed.
